@@ -147,6 +147,9 @@ def parse_location_entries(location_bytes, first_line):
             )
             start_line = last_line + decode_signed_varint(start_line_delta)
             end_line = start_line + end_line_delta
+            # Columns are stored plus one; zero means "no column".
+            start_column = start_column - 1 if start_column > 0 else None
+            end_column = end_column - 1 if end_column > 0 else None
         else:  # code == 15, no location
             start_line = None
             end_line = None
